@@ -258,16 +258,20 @@ def mapE {α β : Type} (f : α → Except Err β) : List α → Except Err (Lis
       | .error e => .error e
       | .ok bs => .ok (b :: bs)
 
+def nzLabel (sampIds : List Id) (o : Id) (e : Nat × Rat) : Except Err (Id × Id) :=
+  match getE sampIds e.1 with
+  | .error er => .error er
+  | .ok sa => .ok (o, sa)
+
+def nzRow (cs : CS Rat) (obsIds sampIds : List Id) (i : Nat) : Except Err (List (Id × Id)) :=
+  match getE obsIds i with
+  | .error e => .error e
+  | .ok o => mapE (nzLabel sampIds o) (cs.slice i)
+
 /-- `Table.nonzero()` as written: on the CSR matrix, for every row walk `indices[indptr[r]:indptr[r+1]]`
 and yield `(obs_ids[r], samp_ids[col])` for every STORED entry (bounds-checked reads). -/
 def nonzeroKernel (cs : CS Rat) (obsIds sampIds : List Id) : Except Err (List (Id × Id)) :=
-  match mapE (fun i =>
-      match getE obsIds i with
-      | .error e => .error e
-      | .ok o => mapE (fun (e : Nat × Rat) =>
-          match getE sampIds e.1 with
-          | .error er => .error er
-          | .ok sa => .ok (o, sa)) (cs.slice i)) (List.range cs.nMajor) with
+  match mapE (nzRow cs obsIds sampIds) (List.range cs.nMajor) with
   | .error e => .error e
   | .ok rows => .ok rows.flatten
 
@@ -490,6 +494,14 @@ def sameObserved (a b : Observed) : Bool :=
 /-- request: {"steps":[{"ops":[model ops for this step], "obs": Observed, "md": {"omd":…,"smd":…}}…], "probes":[[axis,id]…]}
     the first step's ops must start with a construct (the start table). -/
 def handle (req : Json) : R Json := do
+  if let some kj := optFld req "nonzero_kernel" then
+    -- kernel-level request: flat CSR arrays + ids → what the walk of `nonzero()` yields (or the error)
+    let cs ← asCS (← fld kj "cs")
+    let r := nonzeroKernel cs (← listF asStr kj "obs_ids") (← listF asStr kj "samp_ids")
+    return match r with
+      | .ok l => Json.mkObj [("ok", .arr (l.map (fun (a, b) => Json.arr #[.str a, .str b])).toArray),
+                             ("wf", .bool cs.wfb)]
+      | .error e => Json.mkObj [("error", e.name), ("wf", .bool cs.wfb)]
   let steps ← asArr (← fld req "steps")
   let probes ← listF (fun p => do
       match (← asArr p) with
